@@ -54,7 +54,11 @@ def gen_cases(corpus, vectors, tier, rng):
             continue
         base = (v['family'], v['version'], v['dir'], v['object'])
         meta0 = {'family': v['family'], 'version': v['version'], 'dir': v['dir'], 'object': v['object'], 'base': v['id']}
-        for suffix, frame in faults.truncations(v):
+        big = len(v['hex']) > 2 * 4096   # long frames (255 / 256 element arrays): a sample of the cut positions, or the workload is quadratic
+        truncs = list(faults.truncations(v))
+        if big and len(truncs) > 48:
+            truncs = truncs[:16] + rng.sample(truncs[16:-16], 16) + truncs[-16:]
+        for suffix, frame in truncs:
             cut = suffix.split('@')[1]
             if site_ok(base + ('trunc', cut)):
                 yield f"{v['id']}!{suffix}", {**meta0, 'klass': 'truncation', 'site': suffix}, frame
@@ -76,7 +80,7 @@ def gen_cases(corpus, vectors, tier, rng):
         for suffix, frame in faults.compressed_faults(v, rng):
             if site_ok(base + ('z', suffix)):
                 yield f"{v['id']}!{suffix}", {**meta0, 'klass': 'compressed', 'site': suffix}, frame
-        if v['family'] == 'login' or v['kind'] in ('policy1', 'policy2'):
+        if (v['family'] == 'login' or v['kind'] in ('policy1', 'policy2')) and not big:
             for suffix, frame in faults.stream_truncations(v, every=1 if v['family'] == 'login' else (7 if tier == 'quick' else 2)):
                 if site_ok(base + ('eof', suffix)):
                     yield f"{v['id']}!{suffix}", {**meta0, 'klass': 'eof', 'site': suffix}, frame
